@@ -57,7 +57,10 @@ def gen(rng, idx, tier, seed):
     return {'file': fs, 'format': fmt,
             'complevel': int(rng.choice([0, 0, 4])),
             'via': str(rng.choice(['save', 'save', 'pncwrite', 'pncgen'])),
-            'auto': bool(rng.random() < 0.5)}
+            'auto': bool(rng.random() < 0.5),
+            # the reopened (disk-backed) file saved once more
+            'format2': FORMATS[int(rng.integers(4))] if rng.random() < 0.4
+            else None}
 
 
 def in_domain(spec, snap):
@@ -140,6 +143,48 @@ def run(spec, res):
             res.note('out-of-domain')
             return
         after = snapshot.snap_file(g)
+        problems = compare(before, after, res)
+        res.ev(digest(spec), len(before.vars) > 0, facets)
+        if problems:
+            res.viol('roundtrip-differs', '%s via %s: %s' % (
+                spec['format'], spec['via'], '; '.join(problems[:6])),
+                fmt=spec['format'], problems=problems[:10])
+            return
+        if not spec.get('format2'):
+            return
+        spec2 = dict(spec, format=spec['format2'])
+        if in_domain(spec2, after):
+            res.note('second-generation-out-of-domain')
+            return
+        path2 = os.path.join(d, 'out2.nc')
+        try:
+            o2 = g.save(path2, format=spec['format2'], verbose=0)
+            h.keep(o2)
+            o2.close()
+            res.hook('save.return')
+            g2 = h.keep(pnc.pncopen(path2, format='netcdf'))
+            res.hook('reopen.return')
+            after2 = snapshot.snap_file(g2)
+        except Exception as e:
+            res.hook('save.return')
+            res.ev(digest([spec, 'gen2']), True, facets + ['gen2-raised'])
+            res.viol('in-domain-raise:save:%s' % type(e).__name__,
+                     'saving the reopened %s file as %s raised %r' % (
+                         spec['format'], spec['format2'], e),
+                     excmsg=str(e)[:300], fmt=spec['format2'], gen2=True)
+            return
+        problems = compare(after, after2, res)
+        res.ev(digest([spec, 'gen2']), len(after.vars) > 0,
+               ['gen2:' + spec['format2']])
+        if problems:
+            res.viol('roundtrip-differs', 'reopened %s file saved as %s: %s'
+                     % (spec['format'], spec['format2'],
+                        '; '.join(problems[:6])),
+                     fmt=spec['format2'], problems=problems[:10], gen2=True)
+
+
+def compare(before, after, res):
+    if True:
         problems = []
         if list(before.dims.items()) != list(after.dims.items()):
             problems.append('dimensions %s -> %s' % (list(before.dims.items()),
@@ -163,8 +208,4 @@ def run(spec, res):
             problems += snapshot.check_var(
                 got, k, dims=vs.dims, data=vs.data, mask=vs.mask,
                 attrs=exp_attrs, dtype=vs.dtype, attr_ignore=ign)
-        res.ev(digest(spec), len(before.vars) > 0, facets)
-        if problems:
-            res.viol('roundtrip-differs', '%s via %s: %s' % (
-                spec['format'], spec['via'], '; '.join(problems[:6])),
-                fmt=spec['format'], problems=problems[:10])
+        return problems
